@@ -17,8 +17,8 @@ from harness.smt import A, S
 
 TIERS = {"quick": dict(palette=[48, 49, 53, 57], l1_sample=900, deep=500, deep_inner=150, extended=True,
                        cc_len=3, cc_random=500, ls=2, jmax=14, lemma_every=6, Lcc=5),
-         "thorough": dict(palette=[48, 49, 50, 53, 57], l1_sample=None, deep=6000, deep_inner=1500, extended=True,
-                          cc_len=4, cc_random=8000, ls=3, jmax=18, lemma_every=4, Lcc=6)}
+         "thorough": dict(palette=[48, 49, 50, 53, 57], l1_sample=None, deep=3000, deep_inner=800, extended=True,
+                          cc_len=4, cc_random=4000, ls=3, jmax=18, lemma_every=4, Lcc=6)}
 JCFG = ("CONSTANTS DigitPalette = {48}\nCcLen = 1\nINIT JInit\nNEXT JNext\nINVARIANT Judged\nINVARIANT Count\n"
         "CHECK_DEADLOCK FALSE\n")
 
